@@ -13,6 +13,8 @@ import (
 type WebsocketTunnelConnection struct {
 	*websocket.Conn
 	closed bool
+	// pending holds the part of the last received message that did not fit the reader's buffer
+	pending []byte
 }
 
 func NewWebsocketTunnelConnection(conn *websocket.Conn) *WebsocketTunnelConnection {
@@ -21,24 +23,25 @@ func NewWebsocketTunnelConnection(conn *websocket.Conn) *WebsocketTunnelConnecti
 	}
 }
 
+// Read delivers the received websocket messages as a byte stream: a message larger than the
+// supplied buffer is handed out over several calls.
 func (wstc *WebsocketTunnelConnection) Read(p []byte) (int, error) {
-	messageType, message, err := wstc.Conn.ReadMessage()
-	if messageType == websocket.CloseMessage || messageType == -1 {
-		return 0, io.EOF
-	} else if messageType != websocket.BinaryMessage {
-		return 0, errors.Errorf("Invalid message type: %v", messageType)
-	} else if err != nil {
-		return 0, errors.WithStack(err)
+	for len(wstc.pending) == 0 {
+		messageType, message, err := wstc.Conn.ReadMessage()
+		if messageType == websocket.CloseMessage || messageType == -1 {
+			return 0, io.EOF
+		} else if messageType != websocket.BinaryMessage {
+			return 0, errors.Errorf("Invalid message type: %v", messageType)
+		} else if err != nil {
+			return 0, errors.WithStack(err)
+		}
+		wstc.pending = message
 	}
 
-	msgLen := len(message)
-	if len(p) < msgLen {
-		return 0, errors.Errorf("Buffer to small: message size is %v, but buffer size is %v", msgLen, len(p))
-	}
+	n := copy(p, wstc.pending)
+	wstc.pending = wstc.pending[n:]
 
-	copy(p, message)
-
-	return msgLen, nil
+	return n, nil
 }
 
 // Write will take a stream of bytes and send it over a websocket connection.
